@@ -28,7 +28,7 @@ CHECKS = {
              "HashFsm with copy for 40 hash/XOF/MAC configurations) are model-checked exhaustively over every call sequence to a depth bound with "
              "symbolic data (guards equal the documented diagram, TypeError leaves the object unchanged, terminal calls idempotent, MAC input equals "
              "the standard's formatting); TLC-generated sequences are replayed on the real objects and every recorded step is judged by TLC "
-             "against the model (exception class, projected private state, outputs and tags equal to the one-shot computation).",
+             "against the model (exception class, projected private state, outputs and tags equal to the one-shot computation). Every third AEAD history writes its results over the input.",
         design_ref="DESIGN.md section 6, C10",
         note="Trusted: TLC; the recorder's reading of private attributes; one-shot references computed by the library itself (their conformance to "
              "the standards is decided by C01/C02/C03). Depth-bounded: all sequences up to depth 2-3 are replayed, deeper ones are sampled.",
@@ -57,7 +57,7 @@ CHECKS = {
              "at the limit, nothing opens under a different set-up; the increment-before-result variant is shown to violate it. TLC-generated histories "
              "(replay, reorder, corrupt, truncate, extend, other AAD) are replayed on real contexts of 5 KEMs x 3 AEADs x 4 modes with matching and "
              "mismatching receivers; TLC judges every call (exception class, plaintext, projected sequence number) and, for a sample of contexts of every suite (HKDF-SHA256/384/512), recomputes "
-             "kem_context, key schedule, per-message nonces and ciphertexts from RFC 9180 transcribed in TLA+ and uses the exact AEAD verdict. Set-up refusals are judged by rule.",
+             "kem_context, key schedule, per-message nonces and ciphertexts from RFC 9180 transcribed in TLA+ and uses the exact AEAD verdict. Set-up refusals are judged by rule. Calls in the wrong role (unseal on the sender's context with a message that would open, seal on the receiver's) must be refused and change nothing.",
         design_ref="DESIGN.md section 6, C15",
         note="Trusted: TLC; HpkeData/HpkeSha256/AesAead/ChaChaPoly transcriptions (pinned by RFC 9180 A.1.1, FIPS 180-4, RFC 4231 and the AEAD vectors). The DH output is "
              "taken from the trace (C06). The key schedule and every ciphertext are recomputed for a sample of contexts (HKDF-SHA256 suites: 45 per quick run; "
@@ -73,7 +73,7 @@ CHECKS = {
              "controller parks threads at linearization points), free-running first-use races of 2-16 threads are recorded with the same hooks, and TLC validates "
              "every event sequence against the model. sys/ObjPool (lineages under new/use/copy/delete) is model-checked and its interleavings are replayed on pools "
              "of real objects of 34 families, sequentially and with one thread per object; TLC checks every result against the solo replay of the target's lineage "
-             "and that caller-owned inputs are unchanged.",
+             "and that caller-owned inputs are unchanged. Three fixed interleavings per family are always present (objects holding unfinished work alternately); families include KangarooTwelve in tree mode and x-only Montgomery points (set(), in-place ladder).",
         design_ref="DESIGN.md section 6, C19",
         note="Trusted: TLC; the hooks (add-only, guarded by PYCRYPTODOME_VERIF, commit 477417ba) are at the linearization points; blocked threads are detected by a timeout "
              "(a slow thread is only advanced later). Races inside native code are sampled by threaded runs, not enumerated.",
@@ -156,7 +156,7 @@ CHECKS = {
              "RFC 9861 Keccak-p, SHA-3, SHAKE, cSHAKE, KMAC, TupleHash, TurboSHAKE, KangarooTwelve, RFC 7693 BLAKE2b/s, RFC 2104 HMAC over 15 hashes, SP 800-38B CMAC over "
              "AES/DES/3DES/RC2/Blowfish/CAST-128, Poly1305) and TLC computes from them the expected digest, XOF output or tag for every recorded call of the real library and the expected "
              "verdict for every tag offered to verify()/hexverify() (genuine, bit flips, truncated, extended, empty, other message). The chunk automaton of KangarooTwelve.py "
-             "is an object-layer model that TLC checks exhaustively against RFC 9861's definition with symbolic bytes (it found F9) and whose histories are replayed on the real object.",
+             "is an object-layer model that TLC checks exhaustively against RFC 9861's definition with symbolic bytes (it found F9) and whose histories are replayed on the real object. Constructors are called in every documented spelling (default sizes, digest_bits, key containers, the instance method new() of a used object); half of the two-piece histories finish on a copy().",
         design_ref="DESIGN.md section 6, C03",
         note="Trusted: TLC; the TLA+ transcriptions, each pinned by its standard's vectors (and hashlib/OpenSSL-produced vectors) as ASSUMEs checked at setup. TLC is a reference "
              "evaluator for the values (inputs are sampled at boundary lengths), a model checker for the K12 automaton.",
@@ -180,7 +180,7 @@ CHECKS = {
              "CTR look-ahead, OFB/CFB shift register for any segment size, ChaCha20/Salsa20 key-stream offsets, XOF squeezing, OCB caches, S2V deferral, and GcmObj/CcmObj/K12Obj by INSTANCE) "
              "are model-checked against the definition over the concatenation for every composition of segment lengths (block size 4, symbolic bytes); TLC-generated segmentations are scaled to "
              "the real block sizes and replayed on 87 object families crossed with five input buffer kinds, four result modes (returned, output=, output= memoryview, aliased) and caller "
-             "mutation after return; TLC judges every piece against the one-shot slice at its stream position, final tags/digests, unchanged inputs, output= equivalence and projected cache lengths.",
+             "mutation after return; TLC judges every piece against the one-shot slice at its stream position, final tags/digests, unchanged inputs, output= equivalence and projected cache lengths. Growth: Crypto.Util.strxor/strxor_c (container kinds, output modes incl. an input as output, guard bytes, refusals) judged by spec/trace/XorTrace.",
         design_ref="DESIGN.md section 6, C09",
         note="Trusted: TLC; one-shot references are the library's own over plain bytes (their conformance is C02/C03's subject); buffers inside native code are bound through delivered bytes only. "
              "TupleHash is checked metamorphically only.",
@@ -193,7 +193,7 @@ CHECKS = {
              "invariants 'accepted iff definite, minimal, non-truncated, non-trailing' and 'strict acceptance implies re-encoding gives the same bytes', and round trips over a finite value "
              "universe; the same universes are run through the real decoders and re-judged by TLC; grammar-aware mutations of real exported RSA/DSA/ECC keys (about 45 mutations per element, "
              "PBES parameter mutants, OpenSSH containers, PEM text mutations) are offered to import_key/PKCS8.unwrap/PEM.decode and judged for totality (documented exception set), strictness "
-             "(the defect is confirmed from the bytes by ReadTlv) and absence of password-based derivation without a passphrase.",
+             "(the defect is confirmed from the bytes by ReadTlv) and absence of password-based derivation without a passphrase. OpenSSL-encrypted PEM blocks of all five documented cipher names are opened by the specification itself (EVP_BytesToKey/MD5, DES/3DES/AES-CBC from the data layer) and compared with PEM.decode / RSA.import_key.",
         design_ref="DESIGN.md section 6, C13",
         note="Trusted: TLC; the DER/PEM/padding transcriptions (pinned by X.690, RFC 4648 and OpenSSL-produced vectors). Named tolerances where X.690 refuses but C13 is silent are listed in "
              "DESIGN.md 11.4. 'Time bounded by the input size' is observed only as the absence of a KDF call on the no-passphrase path.",
@@ -204,7 +204,7 @@ CHECKS = {
         text="Every cipher of the statement (AES, DES, 3DES, Blowfish, CAST-128, RC2, RC4, Salsa20, ChaCha20/XChaCha20) and every mode (ECB, CBC, CFB with any segment size, OFB, CTR with every "
              "Counter layout, OpenPGP, EAX over all six block ciphers, GCM, CCM incl. the 6-byte AAD header, SIV, OCB, KW, KWP, ChaCha20-Poly1305) is transcribed in TLA+; for generated (cipher, mode, key, "
              "IV/nonce/counter parameters, message) points TLC computes the expected ciphertext and tag from the iv/nonce attribute the object exposes (also when the library chose it) and judges the real "
-             "output, the decryption with a fresh object, and decrypt-direction calls on arbitrary data. TLC is a reference evaluator here: the inputs are sampled at boundary lengths, not enumerated.",
+             "output, the decryption with a fresh object, and decrypt-direction calls on arbitrary data. TLC is a reference evaluator here: the inputs are sampled at boundary lengths, not enumerated. The receiver takes the plaintext in four ways (returned, own output buffer, written over the ciphertext, decrypt then verify).",
         design_ref="DESIGN.md section 6, C02",
         note="Trusted: TLC; the TLA+ transcriptions, each pinned by its standard's vectors and by OpenSSL/GnuPG-produced values as ASSUMEs checked at setup. The library's entropy source is replaced in the "
              "recorder by a seeded generator (the code that chooses, uses and exposes the nonce is untouched). Messages above 5 KiB and the 10-byte CCM length header are not covered.",
